@@ -1,10 +1,13 @@
 (* The bisimulation between go-ethereum's StateDB model and evermint's, obtained from the two refinements
    of the abstract EVM-view machine; runs over operation lists; deterministic clients; initial states;
    the witnesses that separate the two implementations outside the interpreter's discipline. *)
-From Coq Require Import Lia ZArith List Bool FunctionalExtensionality Sorted.
+From Coq Require Import Lia ZArith List Bool Sorted.
 From Evm Require Import EvmAbs GethStateDB EvmStateDB EvmAbsProofs GethRefine EvmRefine.
 Import ListNotations.
 Open Scope Z_scope.
+
+Section WithFE.
+Hypothesis FE : funext_stmt.
 
 (* the relation: both are well formed and describe the same abstract state *)
 Definition R (g : gst) (e : est) : Prop := wf_g g /\ wf_a (absg g) /\ rel_e e (absg g).
@@ -20,8 +23,8 @@ Theorem step_bisim : forall extra o g e,
     astep_x extra o (absg g) = Some (absg g', norm_obs o og).
 Proof.
   intros extra o g e (Wg & Wa & Re) Hd.
-  destruct (gstep_refines extra o g Wg Wa Hd) as (g' & og & Hg & Hag & Wg').
-  destruct (estep_refines extra o e (absg g) Re Wa Hd) as (e' & oe & t' & He & Hae & Re').
+  destruct (gstep_refines FE extra o g Wg Wa Hd) as (g' & og & Hg & Hag & Wg').
+  destruct (estep_refines FE extra o e (absg g) Re Wa Hd) as (e' & oe & t' & He & Hae & Re').
   rewrite Hag in Hae. apply some_pair_inj in Hae. destruct Hae as [Ht Ho]. subst t'.
   exists g', e', og, oe. split; [exact Hg|]. split; [exact He|]. split; [exact Ho|]. split; [|exact Hag].
   split; [exact Wg'|]. split; [|exact Re']. eapply astep_x_wf; eauto.
@@ -143,7 +146,7 @@ Proof.
     intros a o Ho _. exact (Hclean a o Ho).
   - split; [|constructor]. split; [exact Hok|cbn; lia].
   - constructor; cbn [einit ginit absg e_cur e_orig e_issued e_snaps a_cur a_count a_live g_cur g_revs g_issued g_alvalid map length].
-    + apply GethRefine.acore_eq; [|reflexivity]. cbn [absg_core abse_core a_accs g_objs]. apply functional_extensionality. exact Hview.
+    + apply GethRefine.acore_eq; [|reflexivity]. cbn [absg_core abse_core a_accs g_objs]. apply FE. exact Hview.
     + reflexivity.
     + constructor.
     + exact Hwf.
@@ -167,7 +170,7 @@ Definition store_ex : estore :=
            7 (fun _ => false).
 
 Lemma st_get_ex : st_get [(1, 42)] = upd zf 1 42.
-Proof. apply functional_extensionality. intro k. cbn [st_get]. unfold upd, zf. rewrite (Z.eqb_sym 1 k). reflexivity. Qed.
+Proof. apply FE. intro k. cbn [st_get]. unfold upd, zf. rewrite (Z.eqb_sym 1 k). reflexivity. Qed.
 
 Lemma R_example : R (ginit objs_ex) (einit store_ex).
 Proof.
@@ -271,3 +274,5 @@ Lemma witness_multi_denom :
   exists e', estep_x [] (OEmpty 66) (einit store_other) = Some (e', ObB false) /\
   a_empty (eview store_other (core0 store_other) 66) = true.
 Proof. eexists. split; vm_compute; reflexivity. Qed.
+
+End WithFE.
